@@ -19,6 +19,7 @@ Nothing here looks at how the method is written: a heap, a sort, a counter or a 
 
 from __future__ import annotations
 
+import ast
 import heapq
 import itertools
 import operator as _op
@@ -164,13 +165,19 @@ def _heapq_ns(use: Any) -> MObj:
         numbers(args[0], e)
         heapq.heapify(args[0])
 
+    def n_of(ex, e, args, kw, largest):
+        n_, items = (list(args) + [kw.get("iterable")])[:2] if len(args) < 2 else args[:2]
+        if not isinstance(n_, int) or isinstance(n_, bool):
+            raise Internal("TypeError", "heapq.nlargest / nsmallest with a count that is not an integer", e)
+        keyf = kw.get("key", args[2] if len(args) > 2 else None)
+        ordered = ex.sort_values(list(items), keyf, largest, e)  # both are documented as sorted(iterable, key=key, reverse=largest)[:n]
+        return ordered[:max(n_, 0)]
+
     def nsmallest(ex, e, args, kw):
-        numbers(args[1], e)
-        return heapq.nsmallest(args[0], list(args[1]))
+        return n_of(ex, e, args, kw, False)
 
     def nlargest(ex, e, args, kw):
-        numbers(args[1], e)
-        return heapq.nlargest(args[0], list(args[1]))
+        return n_of(ex, e, args, kw, True)
 
     def heappushpop(ex, e, args, kw):
         numbers(args[1], e)
@@ -279,7 +286,12 @@ def activation_semantics(check: Check, cls: str, aspects: tuple[str, ...] | None
     bad: dict[str, tuple[str, Any]] = {}
     cases = 0
     try:
-        for degrees, states, n, t, cmp in itertools.chain(*[configurations(cls, k, thorough) for k in sizes]):
+        # which rules are selected depends on the order of the degrees; which operators are handed on, whether deactivation comes first and whether
+        # something survives in the object do not: for those aspects alone every 16th configuration is interpreted in the quick tier
+        full = bool({"selection", "degrees", "scalar-only"} & set(aspects)) or thorough
+        for number, (degrees, states, n, t, cmp) in enumerate(itertools.chain(*[configurations(cls, k, thorough) for k in sizes])):
+            if not full and number % 16:
+                continue
             cases += 1
             loaded = [st != "unloaded" for st in states]
             w = World(degrees, loaded, [st != "disabled" for st in states])
@@ -290,8 +302,8 @@ def activation_semantics(check: Check, cls: str, aspects: tuple[str, ...] | None
                 hooks = world.hooks()
                 ex = AbsExec(fn.qualname, hooks, helpers=helpers)
                 ex.globals = {"heapq": _heapq_ns(hooks["use"]), "scalar": lambda ex, e, args, kw: args[0], "np": Opaque("numpy"),
-                              "operator": MObj("module", {k: (lambda ex, e, args, kw, f=f: _compare(f, args, e, ex)) for k, f in
-                                                          (("lt", _op.lt), ("le", _op.le), ("eq", _op.eq), ("ne", _op.ne), ("ge", _op.ge), ("gt", _op.gt))}),
+                              "operator": _operator_ns(),
+                              "itemgetter": _operator_ns().fields["itemgetter"], "attrgetter": _operator_ns().fields["attrgetter"],
                               "Scalar": Opaque("type"), "Rule": ("class", "Rule"), "nan": float("nan"), "inf": float("inf")}
                 try:
                     ex.block(list(node.body), {params[0]: me, params[1]: world.block})
@@ -307,7 +319,7 @@ def activation_semantics(check: Check, cls: str, aspects: tuple[str, ...] | None
             want = _expected(cls, degrees, loaded, n, t, cmp)
             _judge(cls, w, want, what, bad)
             # history: the same activation object, used before on another block (more candidates than it triggers), does the same
-            if "history-free" not in bad and (thorough or cases % 4 == 0):
+            if "history-free" not in bad and (thorough or not full or cases % 4 == 0):
                 k = len(degrees)
                 me2 = _instance(p, fn, cls, n, t, comparator, helpers)
                 prime = World([1.0 - i / 8.0 for i in range(k)], [True] * k)
@@ -354,6 +366,34 @@ def _instance(p: Any, fn: Any, cls: str, n: int, t: float, comparator: MObj, hel
             me = MObj(cls, {"__bases__": ("Activation",)})  # the constructor is not the subject here
     me.fields.update({"rules": n, "threshold": t, "comparator": comparator})
     return me
+
+
+def _operator_ns() -> MObj:
+    def itemgetter(ex, e, args, kw):
+        idx = list(args)
+
+        def get(ex_, e_, a, k):
+            vals = [ex_.ev(ast.copy_location(ast.Subscript(value=ast.Name(id="<v>", ctx=ast.Load()), slice=ast.Constant(value=i), ctx=ast.Load()), e_), {"<v>": a[0]})
+                    for i in idx]
+            return vals[0] if len(vals) == 1 else tuple(vals)
+        return get
+
+    def attrgetter(ex, e, args, kw):
+        names = list(args)
+
+        def get(ex_, e_, a, k):
+            vals = [ex_.attr(a[0], n_, e_) for n_ in names]
+            return vals[0] if len(vals) == 1 else tuple(vals)
+        return get
+
+    def neg(ex, e, args, kw):
+        ex.used(args[0])
+        return -args[0]
+
+    ns = {k: (lambda ex, e, args, kw, f=f: _compare(f, args, e, ex)) for k, f in
+          (("lt", _op.lt), ("le", _op.le), ("eq", _op.eq), ("ne", _op.ne), ("ge", _op.ge), ("gt", _op.gt))}
+    ns.update({"itemgetter": itemgetter, "attrgetter": attrgetter, "neg": neg})
+    return MObj("module", ns)
 
 
 def _compare(f: Any, args: list[Any], e: Any, ex: AbsExec) -> bool:
